@@ -42,6 +42,7 @@ func (d *dumpStruct) HandleDumpStruct(v reflect.Value, isSlice ...bool) *dumpStr
 	d.buf.WriteByte('{')
 	maxIndex := tv.NumField()
 	if maxIndex == 0 {
+		d.buf.WriteByte('}')
 		return d
 	}
 
@@ -108,7 +109,9 @@ func (d *dumpStruct) loopHandleKV(s reflect.StructField, tv reflect.Value, isNee
 		d.buf.Write(strconv.AppendInt(d.numBytes[:0], tv.Int(), 10))
 	case reflect.Uint, reflect.Uint8, reflect.Uint16, reflect.Uint32, reflect.Uint64, reflect.Uintptr:
 		d.buf.Write(strconv.AppendUint(d.numBytes[:0], tv.Uint(), 10))
-	case reflect.Float32, reflect.Float64:
+	case reflect.Float32:
+		d.buf.Write(strconv.AppendFloat(d.numBytes[:0], tv.Float(), 'f', -1, 32))
+	case reflect.Float64:
 		d.buf.Write(strconv.AppendFloat(d.numBytes[:0], tv.Float(), 'f', -1, 64))
 	case reflect.Ptr, reflect.Struct, reflect.Interface:
 		d.HandleDumpStruct(tv)
@@ -128,10 +131,15 @@ func (d *dumpStruct) loopHandleKV(s reflect.StructField, tv reflect.Value, isNee
 		mapLen := tv.Len()
 		tmpIndex := 0
 		for mapObj.Next() {
-			// 把 key 处理成字符串
-			d.buf.WriteByte('"')
+			// 把 key 处理成字符串, 字符串类型的 key 本身已带引号
+			isStrKey := mapObj.Key().Kind() == reflect.String
+			if !isStrKey {
+				d.buf.WriteByte('"')
+			}
 			d.loopHandleKV(d.nullStructFiled, mapObj.Key(), false)
-			d.buf.WriteByte('"')
+			if !isStrKey {
+				d.buf.WriteByte('"')
+			}
 			d.buf.WriteString(":")
 			d.loopHandleKV(d.nullStructFiled, mapObj.Value(), false)
 			if tmpIndex < mapLen-1 {
